@@ -543,6 +543,18 @@ class Unit:
             if new != text:
                 self.report['rewrites'].append({'rule': 'R15', 'file': repo_file, 'line': line(item.start), 'before': '&', 'after': "&'static"})
                 text = new
+        if item.kind == 'const':
+            # R29: a byte-slice constant initialised by a byte string is a dual-mode const Verus cannot build
+            # (array -> slice coercion in spec mode): emit `NAME_SPEC()` (the same bytes as a Seq) and an
+            # `exec const` whose postcondition ties the run-time value to it.
+            mo29 = re.match(r"(?s)\s*pub\s+const\s+([A-Z0-9_]+)\s*:\s*&'static \[u8\]\s*=\s*\(&\[([0-9u, ]*)\]\)\s*;(\s*)$", text[len(attrs_txt):])
+            if mo29:
+                nm, elems = mo29.group(1), mo29.group(2)
+                n_el = len([x for x in elems.split(',') if x.strip()])
+                nl = text.count('\n')
+                text = (attrs_txt + "pub open spec fn %s_SPEC() -> Seq<u8> { seq![%s] } " % (nm, elems) +
+                        "pub exec const %s: &'static [u8] ensures %s@ == %s_SPEC(), %s@.len() == %d { let a: &'static [u8; %d] = &[%s]; assert(a@ =~= %s_SPEC()); a }" % (nm, nm, nm, nm, n_el, n_el, elems, nm) + '\n' * nl)
+                self.report['rewrites'].append({'rule': 'R29', 'file': repo_file, 'line': line(item.start), 'before': 'const %s: &[u8] = b".."' % nm, 'after': 'spec fn %s_SPEC + exec const %s ensures %s@ == %s_SPEC()' % (nm, nm, nm, nm)})
         text = self._apply_rewrites(text, file_rewrites, repo_file, line(item.attr_start))
         if tspec:
             for a in tspec.attrs:
@@ -595,6 +607,7 @@ class Unit:
                 key = it.name
                 if key in verify: mode = 'verify'
                 elif key in stub: mode = 'stub'
+                elif '**' in verify: mode = 'verify'
                 else: continue
                 found.add(key)
                 self._splice_fn(em, it, None, repo_file, fspec, mode, file_rewrites, world_callees)
@@ -606,6 +619,7 @@ class Unit:
                         key = pn + '::' + ch.name
                         if key in verify or (pn + '::*') in verify: chosen.append((ch, 'verify')); found.add(key); found.add(pn + '::*')
                         elif key in stub or (pn + '::*') in stub: chosen.append((ch, 'stub')); found.add(key); found.add(pn + '::*')
+                        elif '**' in verify: chosen.append((ch, 'verify'))
                     elif ch.kind in ('type', 'const'):
                         chosen.append((ch, 'plain'))
                 if not any(md != 'plain' for _, md in chosen):
@@ -636,7 +650,7 @@ class Unit:
             else:
                 if want_plain(it):
                     self._emit_plain(em, it, repo_file, fspec, file_rewrites)
-        missing = (verify | stub) - found
+        missing = (verify | stub) - found - {'**'}
         if missing:
             raise LostAnchor('%s: functions not found: %s' % (repo_file, sorted(missing)))
         if sel is not None:
